@@ -7,6 +7,7 @@
 package c13
 
 import (
+	"context"
 	"fmt"
 	"io"
 	"net/http"
@@ -17,6 +18,7 @@ import (
 	"time"
 
 	h2 "github.com/wi1dcard/fingerproxy/pkg/http2"
+	"github.com/wi1dcard/fingerproxy/pkg/metadata"
 	xhttp2 "golang.org/x/net/http2"
 	"pgregory.net/rapid"
 
@@ -53,7 +55,7 @@ func gen(t *rapid.T) Script {
 	nStreams := 0
 	n := rapid.IntRange(1, 28).Draw(t, "nops")
 	for i := 0; i < n; i++ {
-		kinds := []string{"new", "new", "new", "new", "upload", "headers_malformed", "settings", "ping", "window_update_conn", "priority_idle", "priority_self", "unknown", "release"}
+		kinds := []string{"new", "new", "new", "new", "upload", "headers_malformed", "settings", "ping", "window_update_conn", "priority_idle", "priority_self", "unknown", "release", "table_size"}
 		if nStreams > 0 {
 			kinds = append(kinds, "data", "data", "data", "trailers", "trailers", "rst", "rst", "window_update", "priority", "headers_again", "release", "release")
 		}
@@ -105,6 +107,11 @@ func gen(t *rapid.T) Script {
 				op.CL = rapid.SampledFrom([]int{0, 0, 0, 1, 100, 200, 1100, 2000}).Draw(t, "cl")
 			}
 			nStreams++
+		case "table_size":
+			// the client's encoder changes its dynamic table size: its next header block starts with a size
+			// update (RFC 7541 4.2), which is legal at the beginning of any block — also after a block that was
+			// rejected as malformed
+			op.N = rapid.SampledFrom([]int{0, 100, 2048, 4096}).Draw(t, "ts")
 		case "headers_malformed":
 			op.Variant = rapid.SampledFrom([]string{"missing-path", "dup-method", "pseudo-after-regular", "uppercase", "connection-header", "empty-path", "unknown-pseudo", "bad-hpack", "te-gzip", "missing-method", "status-in-request"}).Draw(t, "mv")
 			op.End = rapid.Bool().Draw(t, "end")
@@ -257,7 +264,10 @@ func exec(t *testing.T, s Script) (viol *vstat.Violation, classes map[string]boo
 		})
 		srv := &h2.Server{MaxConcurrentStreams: s.Limit}
 		served := make(chan struct{})
-		go func() { srv.ServeConn(srvSide, &h2.ServeConnOpts{Handler: handler}); close(served) }()
+		// as under the proxy: the connection's context carries the fingerprint metadata, so the fork's capture code
+		// runs on every frame of the history
+		mdCtx, _ := metadata.NewContext(context.Background())
+		go func() { srv.ServeConn(srvSide, &h2.ServeConnOpts{Handler: handler, Context: mdCtx}); close(served) }()
 		peer := rig.NewH2Peer(cli)
 		peer.Start()
 		peer.Fr.WriteSettings()
@@ -477,6 +487,8 @@ func exec(t *testing.T, s Script) (viol *vstat.Violation, classes map[string]boo
 			return idle()
 		}
 
+		sawMalformed, sizeAfterMalformed := false, false
+		encTable := uint32(4096)
 		for i, op := range s.Ops {
 			if dead {
 				break
@@ -484,7 +496,21 @@ func exec(t *testing.T, s Script) (viol *vstat.Violation, classes map[string]boo
 			step := fmt.Sprintf("op %d %+v", i, op)
 			ex := legal(op.Kind)
 			switch op.Kind {
+			case "table_size":
+				// (x/net's Encoder announces a size change only when the size shrinks; growing it again would leave
+				// the two tables out of step by the encoder's own doing, so the history only ever shrinks it)
+				if uint32(op.N) >= encTable {
+					continue
+				}
+				encTable = uint32(op.N)
+				peer.Enc.SetMaxDynamicTableSize(uint32(op.N))
+				sizeAfterMalformed = sawMalformed
+				continue
 			case "new":
+				if sizeAfterMalformed {
+					classes["request-whose-block-starts-with-a-size-update-after-a-malformed-block"] = true
+					sizeAfterMalformed = false
+				}
 				id := maxID + 2 + uint32(2*op.Skip)
 				if maxID == 0 {
 					id = 1 + uint32(2*op.Skip)
@@ -567,6 +593,7 @@ func exec(t *testing.T, s Script) (viol *vstat.Violation, classes map[string]boo
 					f = append(f[:4:4], [2]string{":status", "200"})
 				}
 				block := peer.Encode(f)
+				sawMalformed = true
 				if op.Variant == "bad-hpack" {
 					block = []byte{0xff, 0xff, 0xff, 0xff, 0xff, 0xff, 0xff, 0xff, 0xff, 0xff, 0x7f}
 					ex = connErr("undecodable-header-block", cCompress)
@@ -881,7 +908,7 @@ func exec(t *testing.T, s Script) (viol *vstat.Violation, classes map[string]boo
 				streams = append(streams, a)
 				maxID = idA
 				writeBlock(idA, peer.Encode(fields(a.path)), true, nil, 0, false)
-				rig.Wait() // the response has filled the connection's buffers; the frame writer is blocked
+				rig.Wait()                            // the response has filled the connection's buffers; the frame writer is blocked
 				peer.Fr.WriteWindowUpdate(0, 1<<31-1) // pushes the connection window beyond 2^31-1: connection error FLOW_CONTROL_ERROR
 				idB := maxID + 2
 				b := &mstream{id: idB, mode: "finish", path: fmt.Sprintf("/s/%d/after-the-error", idB), wellFormed: true, release: make(chan struct{}), clientEnded: true, decl: -1, noHandler: true, refused: true}
@@ -993,7 +1020,7 @@ func names(m map[uint32]bool) []string {
 }
 
 func TestModel(t *testing.T) {
-	col.Mandatory("concurrency-limit-reached", "continuation", "continuation-interrupted", "illegal-frame", "request-handled", "connection-error", "client-reset", "trailers", "padding-only-data", "malformed:uppercase", "malformed:missing-path",
+	col.Mandatory("request-whose-block-starts-with-a-size-update-after-a-malformed-block", "concurrency-limit-reached", "continuation", "continuation-interrupted", "illegal-frame", "request-handled", "connection-error", "client-reset", "trailers", "padding-only-data", "malformed:uppercase", "malformed:missing-path",
 		"data-within-content-length", "data-after-padded-data-within-content-length", "data-beyond-content-length",
 		"frame-on-idle-even-stream-below-the-highest-client-stream", "connection-error-while-the-frame-writer-is-blocked")
 	vstat.Run(t, vstat.Spec[Script]{Col: col, Quick: 3000, Thorough: 100000, Gen: gen,
